@@ -60,18 +60,20 @@ func (s *chunkSrc) Read(p []byte) (int, error) {
 // another error.  After the data it reports EOF for ever (or, as an
 // alternative, another error).
 type faultSrc struct {
-	data      []byte
-	pos       int
-	pending   []error // queued fault results still to deliver
-	supplied  int
-	firstEOF  time.Time // virtual time of the first EOF/timeout of the current run
-	inRun     bool
-	lastErr   error
-	faults    []string
-	eofRuns   []int
-	afterData int // reads after the data ran out
-	transient int // EOF / timeout results handed over so far
-	lastErrAt time.Time
+	data            []byte
+	pos             int
+	pending         []error // queued fault results still to deliver
+	supplied        int
+	firstEOF        time.Time // virtual time of the first EOF/timeout of the current run
+	inRun           bool
+	lastErr         error
+	faults          []string
+	eofRuns         []int
+	afterData       int  // reads after the data ran out
+	sawOther        bool // the source has reported 'another read error'
+	readsAfterOther int  // Read calls made after that
+	transient       int  // EOF / timeout results handed over so far
+	lastErrAt       time.Time
 }
 
 var errTimeout = errors.New("read tcp 127.0.0.1:2101: i/o timeout")
@@ -80,6 +82,9 @@ var errOther = errors.New("connection reset by peer")
 func (s *faultSrc) Read(p []byte) (int, error) {
 	if mcrt.Aborting() {
 		return 0, errOther
+	}
+	if s.sawOther {
+		s.readsAfterOther++
 	}
 	withData := error(nil) // an error to hand over TOGETHER with the next data, as io.Reader allows
 	nbytes := 1
@@ -154,6 +159,9 @@ func (s *faultSrc) noteErr(e error) {
 			s.inRun = true
 			s.firstEOF = mcrt.Now()
 		}
+	}
+	if e == errOther {
+		s.sawOther = true
 	}
 	s.lastErr = e
 	s.lastErrAt = mcrt.Now()
@@ -239,5 +247,14 @@ func pipelineStreams() map[string][]byte {
 		"badcrc+frame":     append(append([]byte{}, bad...), f...),
 		"1005/19":          ref.TypedFrame(1005, 19, nil),
 		"1077/8":           ref.TypedFrame(1077, 8, nil),
+		// valid frames that carry an error from the time conversion (a
+		// constellation without week logic; GLONASS day 7): typed all the same
+		"qzss1117/8+frame": append(ref.TypedFrame(1117, 8, nil), f...),
+		"glonass-day7": ref.TypedFrame(1087, 8, func(i int) byte {
+			if i == 3 {
+				return 0xE0
+			}
+			return 0
+		}),
 	}
 }
